@@ -58,6 +58,15 @@ func H_C06_qual() {
 		verifAssume(p != local)
 		impHint(f, 0, p)
 	}
+	// hints for unrelated paths given afterwards must not change anything
+	verifAssume(p != "unrelated.example/z")
+	verifAssume(local != "unrelated.example/z")
+	switch nondetChoice("late_unrelated_hint", 3) {
+	case 1:
+		f.ImportAlias("unrelated.example/z", "zalias")
+	case 2:
+		f.ImportName("unrelated.example/z", "zname")
+	}
 	before := len(f.imports)
 	buf := &bytes.Buffer{}
 	var err error
